@@ -154,10 +154,47 @@ func Var(name string, s *Sort) *Term {
 
 var freshCounter = map[string]int{}
 
+// freshSerial orders fresh variables by creation time (used to recognise the variables
+// introduced by one contract application).
+var freshSerial int
+var freshBorn = map[*Term]int{}
+
 func Fresh(prefix string, s *Sort) *Term {
 	prefix = sanitize(prefix)
 	freshCounter[prefix]++
-	return Var(fmt.Sprintf("%s!%d", prefix, freshCounter[prefix]), s)
+	v := Var(fmt.Sprintf("%s!%d", prefix, freshCounter[prefix]), s)
+	freshSerial++
+	freshBorn[v] = freshSerial
+	return v
+}
+
+// occurs reports whether v occurs in t.
+func occurs(v, t *Term) bool {
+	seen := map[*Term]bool{}
+	var rec func(t *Term) bool
+	rec = func(t *Term) bool {
+		if t == v {
+			return true
+		}
+		if seen[t] {
+			return false
+		}
+		seen[t] = true
+		for _, a := range t.Args {
+			if rec(a) {
+				return true
+			}
+		}
+		if t.Op == "poly" {
+			for _, a := range t.Poly.atoms() {
+				if rec(a) {
+					return true
+				}
+			}
+		}
+		return false
+	}
+	return rec(t)
 }
 
 func sanitize(s string) string {
